@@ -148,7 +148,35 @@ fn history<const D: usize>(hid: usize, rng: &mut Rng, out: &mut Out, steps: usiz
     }
 }
 
+/// bootstrap histories: from an EMPTY triangulation, vertices are inserted one at a time and some
+/// are removed again before the initial simplex exists (the Tds is rebuilt when vertex D+1
+/// arrives, which renumbers keys while the duplicate grid persists); probes after every step
+fn bootstrap<const D: usize>(hid: usize, rng: &mut Rng, out: &mut Out, budget: usize) {
+    let mut w: World<D> = hist::start_empty::<D>(1);
+    let pts = gens::to_f(&gens::general_position(rng, D, D + 4, 6), 1.0, 0.0);
+    let mut next = 0usize;
+    for s in 0..(D + 6) {
+        let bootstrapping = w.dt.number_of_cells() == 0;
+        let op = if bootstrapping && w.dt.number_of_vertices() >= 1 && rng.chance(1, 3) {
+            let keys = w.live_keys();
+            let vk = *rng.pick(&keys);
+            let _ = w.do_remove(Some(vk), rng);
+            "boot_remove"
+        } else if next < pts.len() {
+            let _ = w.do_insert(gens::arr::<D>(&pts[next]), false, rng);
+            next += 1;
+            if bootstrapping { "boot_insert" } else { "insert" }
+        } else { break };
+        if w.dt.number_of_vertices() > 0 { probes(&mut w, 900 + hid, s, op, rng, out, budget); }
+    }
+}
+
 pub fn run(cfg: &Cfg, rng: &mut Rng, out: &mut Out) {
+    for h in 0..(if cfg.tier == "thorough" { 12 } else { 4 }) {
+        bootstrap::<2>(h, rng, out, 3);
+        bootstrap::<3>(h, rng, out, 3);
+        if h % 2 == 0 { bootstrap::<4>(h, rng, out, 2); }
+    }
     let thorough = cfg.tier == "thorough";
     let nh = if thorough { 30 } else { 10 };
     let (steps, budget) = if thorough { (14, 8) } else { (8, 4) };
